@@ -183,7 +183,8 @@ def kinds_def(t, lite=False):
     n = len(t.exported())
 
     # a method marked to use integer results crosses as an integer code, whatever its spelling
-    ints = " ".join(f"int_entry_check(&vt.{m.name}(), \"{T}::{m.name}\")?;" for m in t.exported() if getattr(m.ret, "int_result", None) is True)
+    # (and carries the output slot for a success payload)
+    ints = " ".join(f"int_entry_check(&vt.{m.name}(), \"{T}::{m.name}\", {'false' if getattr(m.ret, 't', None) == '()' else 'true'})?;" for m in t.exported() if getattr(m.ret, "int_result", None) is True)
 
     def build(expr):
         # what trait_obj! does, in two steps, with the C04 oracles in between
